@@ -19,14 +19,14 @@ LEVEL = "exploration"
 RULE = ("each case is a seeded batch of quaternions (and angular velocities) run through the real kernel in one mode "
         "(float / exact rational / algebra helpers); distinct = hash of the first inputs of the batch; non-trivial = "
         "every identity of the batch was evaluated on a nonzero, non-axis-aligned quaternion")
-ASSUMPTIONS = ["float mode: |P| in [1e-100, 1e100] so that P.P neither under- nor overflows (float64 limit of the stated domain)",
+ASSUMPTIONS = ["float mode: |P| in [1e-150, 1e150] so that P.P neither under- nor overflows (float64 limit of the stated domain); the derivative beyond [1e-100, 1e100] is judged by its degree -1 homogeneity against the unit quaternion",
                "float tolerance 64*eps*(1+component dynamic range effect) on orthonormality etc.; derivative by complex step",
                "exact mode: module constants eye3 / ax2skew_a re-bound to integer-valued object arrays by the harness so that no float literal enters; helpers that multiply by a float literal (skew2ax) are replaced by the harness' own extraction"]
 REQUIRED_MONITORS = ["float.orthonormal", "float.scale", "float.homomorphism", "float.TTinv", "float.spin", "float.derivative", "float.representation",
                      "exact.orthonormal", "exact.scale", "exact.homomorphism", "exact.TTinv", "exact.spin", "exact.derivative", "algebra"]
 META = {
     "level_text": "Exploration: the real kernel functions are executed on seeded hostile float inputs and, in exact mode, on Fraction-valued object arrays where every identity is decided with == (no tolerance); derivatives are obtained by executing the real map on dual numbers over Fraction. Held on the samples generated; not a symbolic proof.",
-    "level_note": "sampled inputs only (Schwartz-Zippel argument for the rational identities); float mode limited to |P| in [1e-100,1e100]; module constants re-bound to exact integer arrays in exact mode.",
+    "level_note": "sampled inputs only (Schwartz-Zippel argument for the rational identities); float mode limited to |P| in [1e-150,1e150]; module constants re-bound to exact integer arrays in exact mode.",
     "technique": "runtime return-value monitors; execution of the real code in exact rational / dual-number arithmetic + representation twins",
 }
 
@@ -210,9 +210,12 @@ def _quat(rng):
     elif mode == 4:
         # a hair off unit length (what a few integration steps without re-normalisation produce)
         length = 1.0 + (1 if rng.random() < 0.5 else -1) * loguniform(rng, 1e-15, 1e-4)
-    else:
+    elif mode == 2:
         length = loguniform(rng, 1e-100, 1e100)
-    return P * length, ["half", "ident", "dynrange", "axis", "nearhalf", "pattern", "gen", "gen"][c], ["unit", "moderate", "extreme", "extreme", "nearunit"][mode]
+    else:
+        # up to the float64 limit of the stated domain: P.P is still a normal number
+        length = loguniform(rng, 1e-150, 1e150)
+    return P * length, ["half", "ident", "dynrange", "axis", "nearhalf", "pattern", "gen", "gen"][c], ["unit", "moderate", "extreme", "limit", "nearunit"][mode]
 
 
 def run_float(ctx, n):
@@ -240,7 +243,7 @@ def run_float(ctx, n):
             ctx.violation("Exp_SO3_quat", "normalize=False on the unit quaternion differs from normalize=True", {**det, "err": np.abs(A1 - A).max()})
         # scale invariance
         s = loguniform(rng, 1e-30, 1e30) * (1 if rng.random() < 0.5 else -1)
-        if 1e-100 <= np.linalg.norm(P * s) <= 1e100:
+        if 1e-150 <= np.linalg.norm(P * s) <= 1e150:
             As = R.Exp_SO3_quat(P * s)
             ctx.mon("float.scale")
             if np.abs(As - A).max() > tol:
@@ -284,6 +287,17 @@ def run_float(ctx, n):
             # (the derivative scales like 1/|P|: representable over the whole sampled range of lengths; the comparison below is
             #  scaled by |P|, so short and long quaternions are judged like unit ones)
             combos.append((P, True))
+        else:
+            # beyond the reach of the complex step (its imaginary parts would be subnormal): the normalising rotation map does
+            # not depend on the length of P, hence its derivative is homogeneous of degree -1; the derivative at the unit
+            # quaternion is judged by the complex step below
+            ctx.mon("float.derivative_homogeneity")
+            with np.errstate(all="ignore"):
+                Jl = R.Exp_SO3_quat_P(P, normalize=True) * np.linalg.norm(P)
+            e = np.abs(Jl - R.Exp_SO3_quat_P(Pn, normalize=True)).max()
+            if not e <= 1e-10:
+                ctx.violation("Exp_SO3_quat_P", "stated partial derivative at a very short / very long quaternion is not 1/|P| times the one at the unit quaternion",
+                              {"P": P, "length": float(np.linalg.norm(P)), "scaled_err": e})
         order = rng.permutation(len(combos))
         for ci in order:
             Pd, nz = combos[int(ci)]
